@@ -141,7 +141,15 @@ def run_group_inner(g):
             return dict(array=err, scalar=scal)
         arr = build_array(xs, g["shape"], g["layout"], getattr(np, g.get("dtype", "float64")))
         before = snapshot(arr)
+        # ONE converter object used for several same-shaped inputs: the judged call is made between two others and its
+        # result is read only after the last of them (a caller keeping one converter per format, one call per timestep)
+        ar = g.get("around")
+        dt_ = getattr(np, g.get("dtype", "float64"))
+        if ar:
+            guarded(lambda: conv(build_array([b2f(b) for b in ar["before"]], g["shape"], g["layout"], dt_)))
         r = guarded(lambda: conv(arr))
+        if ar:
+            guarded(lambda: conv(build_array([b2f(b) for b in ar["after"]], g["shape"], g["layout"], dt_)))
         same = snapshot(arr) == before
         if isinstance(r, str):
             return dict(array=r, scalar=scal, input_unchanged=same)
